@@ -942,3 +942,169 @@ def run_tv(ctx: vlib.Ctx, name: str, n_schemas: int, foreign: int = 2):
             return cases, None, "unparsable coq output: " + out[-1500:]
         bad.extend(n * 150 + i for i in idx)
     return cases, bad, ""
+
+
+# ---------------------------------------------------------------------------
+# round 7: directed schemas (inside the Coq grammar) for three dimensions the random stream reaches too rarely:
+#   (L) Literal types that list an int AND the bool comparing equal to it (0/False, 1/True), in both orders, at depth
+#   (N) Optional dataclass fields whose default is falsy but not None (0, "", False, 0.0, a tuple of them) with an explicit null on the wire
+#   (H) a nullable holder field -> NamedTuple -> Optional item holding None (and the same NamedTuple below List[Optional[...]])
+# ---------------------------------------------------------------------------
+
+def directed_schema(sg: gen.SchemaGen, rng):
+    """returns (type tree, holder dataclass name, literal type, literal field name)"""
+    pairs = rng.choice([[(0, False)], [(1, True)], [(0, False), (1, True)]])
+    ints, bools = [p[0] for p in pairs], [p[1] for p in pairs]
+    extra = rng.sample([2, "a", "", None, "1", "True", -1], rng.randrange(0, 3))
+    members = (ints + extra + bools) if rng.random() < 0.65 else (bools + extra + ints)
+    if rng.random() < 0.3:
+        rng.shuffle(members)
+    lit = T("lit", extra=members)
+
+    def wrap(x):
+        c = rng.random()
+        if c < 0.2:
+            return x
+        if c < 0.4:
+            return T("opt", [x])
+        if c < 0.6:
+            return T("list", [x])
+        if c < 0.8:
+            return T("dict", [T("str"), T("list", [T("opt", [x])])])
+        return T("tuplefix", [T("int"), x])
+
+    # (H) NamedTuple with Optional items, possibly holding another NamedTuple
+    inner = None
+    if rng.random() < 0.5:
+        inner = gen.ClassSpec("nt", sg.fresh("N"))
+        inner.fields.append(gen.FieldSpec("a0", T("str")))
+        inner.fields.append(gen.FieldSpec("a1", T("opt", [T(rng.choice(["str", "int", "bool"]))])))
+        sg.fam.classes.append(inner)
+    nt = gen.ClassSpec("nt", sg.fresh("N"))
+    nt.fields.append(gen.FieldSpec("a0", T(rng.choice(["str", "int"]))))
+    item = rng.choice([T("str"), T("int"), T("bool"), T("leaf", name="date"), T("float"), lit, T("list", [T("int")])])
+    nt.fields.append(gen.FieldSpec("a1", T("opt", [item])))
+    if inner is not None:
+        nt.fields.append(gen.FieldSpec("a2", T("opt", [T("nt", name=inner.name)])))
+    if rng.random() < 0.5:
+        nt.fields.append(gen.FieldSpec("a3", T("opt", [T(rng.choice(["int", "str"]))]), None, "None"))
+    sg.fam.classes.append(nt)
+    ntT = lambda: T("nt", name=nt.name)
+
+    d = gen.ClassSpec("data", sg.fresh("D"), mixin=rng.random() < 0.6)
+    d.fields.append(gen.FieldSpec("l", wrap(lit)))
+    d.fields.append(gen.FieldSpec("h", T("opt", [ntT()])))                       # nullable at field level, no default
+    d.fields.append(gen.FieldSpec("p", ntT()))                                   # control: not nullable
+    d.fields.append(gen.FieldSpec("q", T("list", [T("opt", [ntT()])])))          # control: nullable below a list
+    falsy = [("int", 0), ("str", ""), ("bool", False), ("float", 0.0), ("int", 1), ("str", "x"), ("bool", True), ("float", 1.5)]
+    rng.shuffle(falsy)
+    for i, (k, dv) in enumerate(falsy[:rng.randrange(3, 7)]):
+        d.fields.append(gen.FieldSpec(f"n{i}", T("opt", [T(k)]), dv, repr(dv)))
+    if rng.random() < 0.6:
+        tt = T("tuplefix", [T("int"), T("str")])
+        dv = rng.choice([(0, ""), (0, "x")])
+        d.fields.append(gen.FieldSpec("nt_", T("opt", [tt]), dv, repr(dv)))
+    d.fields.append(gen.FieldSpec("g", T("opt", [ntT()]), None, "None"))           # nullable by Optional and default None
+    d.fields.append(gen.FieldSpec("z", T("opt", [T("int")]), None, "None"))
+    sg.fam.classes.append(d)
+    dT = T("data", name=d.name)
+    c = rng.random()
+    t = dT if c < 0.5 else T("list", [dT]) if c < 0.7 else T("dict", [T("str"), T("list", [dT])]) if c < 0.85 else T("opt", [dT])
+    return t, d.name, lit, nt.name
+
+
+def _directed_inputs(w, dname_fields, rng):
+    """every single-position variant of a wire value in which (a) the value of one key of one mapping is null, (b) one item of one
+    list is null -- the explicit nulls of (N) and (H) at every depth -- plus bools at one int position"""
+    out = []
+
+    def go(x, rebuild):
+        if len(out) > 60:
+            return
+        if isinstance(x, dict):
+            for k in x:
+                if x[k] is not None:
+                    out.append(rebuild({**x, k: None}))
+                go(x[k], lambda z, k=k, x=x, rebuild=rebuild: rebuild({**x, k: z}))
+        elif isinstance(x, list):
+            for i, y in enumerate(x):
+                if y is not None:
+                    out.append(rebuild(x[:i] + [None] + x[i + 1:]))
+                if type(y) is int and y in (0, 1):
+                    out.append(rebuild(x[:i] + [bool(y)] + x[i + 1:]))
+                go(y, lambda z, i=i, x=x, rebuild=rebuild: rebuild(x[:i] + [z] + x[i + 1:]))
+        elif type(x) is int and x in (0, 1):
+            out.append(rebuild(bool(x)))
+        elif type(x) is bool:
+            out.append(rebuild(int(x)))
+    go(w, lambda z: z)
+    return out
+
+
+def make_directed_cases(rng, n_schemas: int, per_schema: int = 3, limit: int = 24):
+    """python-side cases of the directed schemas; every case also carries its codec ("enc"/"dec" objects) for the direct oracles"""
+    from mashumaro.codecs.basic import BasicDecoder, BasicEncoder
+    cases = []
+    for si in range(n_schemas):
+        sg = gen.SchemaGen(rng, gen.GenOpts(depth=2, coq_only=True, named=True, literals=True))
+        sg.tag = f"r7_{si}_"
+        t, dname, lit, ntname = directed_schema(sg, rng)
+        fam = sg.fam
+        ns = fam.build()
+        ty = gen.resolve(t, ns)
+        enc, dec = BasicEncoder(ty), BasicDecoder(ty)
+        vg = gen.ValueGen(rng, fam)
+        mixin_top = t.kind == "data" and fam.get(t.name).mixin
+        base = dict(fam=fam, t=t, ns=ns, enc_o=enc, dec_o=dec)
+
+        def outcome(f):
+            try:
+                return ("ok", f())
+            except Exception as e:
+                return ("exc", type(e).__name__)
+        vals = [vg.value(t) for _ in range(per_schema)]
+        # every member of the Literal at its position, and a NamedTuple whose Optional items are all None, in a holder built by hand
+        dT = T("data", name=dname)
+        for m in lit.extra:
+            hv = vg.value(dT)
+            lt = fam.get(dname).fields[0].ty
+            lv = {"lit": m, "opt": m, "list": [m, m], "dict": {"k": [m, None]}, "tuplefix": (7, m)}[lt.kind]
+            hv = dataclasses.replace(hv, l=lv)
+            ntc = ns[ntname]
+            hv = dataclasses.replace(hv, h=ntc(*[(None if f.ty.kind == "opt" else getattr(hv.p, f.name)) for f in fam.get(ntname).fields]))
+            vals.append(hv if t.kind == "data" else [hv] if t.kind == "list" else {"k": [hv]} if t.kind == "dict" else hv)
+        for v in vals:
+            if mixin_top:
+                cases.append(dict(base, kind="enc", value=v, out=outcome(lambda: v.to_dict()), entry="mixin"))
+            o = outcome(lambda: enc.encode(v))
+            cases.append(dict(base, kind="enc", value=v, out=o))
+            if o[0] != "ok":
+                continue
+            w = o[1]
+            extra = _directed_inputs(w, None, rng)
+            rng.shuffle(extra)
+            for d in [w] + extra[:limit]:
+                d0 = copy.deepcopy(d)
+                cases.append(dict(base, kind="dec", input=d0, out=outcome(lambda: dec.decode(copy.deepcopy(d0)))))
+                if mixin_top:
+                    cases.append(dict(base, kind="dec", input=d0, out=outcome(lambda: ns[t.name].from_dict(copy.deepcopy(d0))), entry="mixin"))
+    return cases
+
+
+def run_directed(ctx: vlib.Ctx, name: str, n_schemas: int):
+    """returns (cases, bad indices or None, log) like run()"""
+    cases = make_directed_cases(ctx.rng, n_schemas)
+    br = vlib.coq_make(["theories/TyModel.vo", "theories/CaseLib.vo", "theories/Wire.vo"])
+    if not br.ok:
+        return cases, None, "model does not build: " + (br.error or "")
+    files = emit(cases)
+    res = vlib.coq_eval_many([(f"{name}_{i}", txt) for i, txt in enumerate(files)], timeout=CORR_TIMEOUT, jobs=4)
+    bad = []
+    for n, (ok, out) in enumerate(res):
+        if not ok:
+            return cases, None, out[-3000:]
+        idx = vlib.parse_nat_list(out)
+        if idx is None:
+            return cases, None, "unparsable coq output: " + out[-1500:]
+        bad.extend(n * 150 + i for i in idx)
+    return cases, bad, ""
